@@ -18,7 +18,7 @@ RULE = ("Hypothesis-generated hierarchies of 2-5 classes (chains, diamonds D(B,C
         "same hierarchy is also built with add_parameter on already created classes or with param.parameterized_class; a class that only inherits the Parameter may get a class-level value (it then holds a copy that the classes below it inherit from); oracle = independent per-slot MRO "
         "resolver for every slot of every class + spec predicate deciding whether creation must fail (merged default vs merged "
         "constraints/type; a None default re-checked only on type change) + invariant on every class that was created: its non-None default satisfies the spec predicate under the slots it actually has. Non-trivial = >=3 declaring classes or a diamond "
-        "with a slot taken from a non-adjacent ancestor, or a merged-invalid default, or a type change; distinct = case hash.")
+        "with a slot taken from a non-adjacent ancestor, or a merged-invalid default, or a type change; distinct = case hash. Round 5: the readonly slot is generated (mostly the explicit False, which must leave constant to be inherited).")
 ASSUMPTIONS = [
     "each level's own declaration is constructible on its own (otherwise the case is a constructor-time rejection: counted, no claim)",
     "slot families: Parameter/Number/Integer, Parameter/String and Parameter/Range; Tuple slots not generated",
